@@ -294,6 +294,10 @@ func genC06(r *Rng, idx int, tier string) *Scenario {
 			// direction A
 			st := Step{Op: "send", SA: 0, Dgram: i, From: from, Msg: genMsg(r, &cfg), Rand: adversarialRand(r, prev)}
 			prev = st.Rand
+			if r.Chance(1, 16) {
+				st.Rand = &RandScript{Seed: r.U64(), FailAt: r.Range(1, 2), FailMode: Pick(r, "err", "eof", "partial")}
+				st.Retry = true
+			}
 			sc.Steps = append(sc.Steps, st)
 		} else {
 			st := Step{Op: "ref_send", SA: 0, Dgram: i, From: from, Msg: genMsg(r, &cfg), SpiI: r.U64()}
